@@ -1,0 +1,158 @@
+//go:build verif
+
+package rpc
+
+import (
+	"context"
+	"encoding/json"
+	"io"
+	"net"
+	"testing"
+	"time"
+
+	"github.com/alicebob/miniredis/v2"
+	"github.com/gotid/god/internal/verifdrv"
+	"github.com/gotid/god/lib/logx"
+	"github.com/gotid/god/lib/store/redis"
+	"github.com/gotid/god/rpc/internal/mock"
+	"google.golang.org/grpc"
+	"google.golang.org/grpc/credentials/insecure"
+	"google.golang.org/grpc/health/grpc_health_v1"
+	"google.golang.org/grpc/metadata"
+	"google.golang.org/grpc/status"
+)
+
+// C04 through the PUBLIC constructor: rpc.NewServer(ServerConfig{Auth, StrictControl, Redis, ...}) and
+// Server.Start; a real grpc client calls the unary method /mock.DepositService/Deposit and the
+// streaming method /grpc.health.v1.Health/Watch with app/token metadata. The store is a miniredis
+// addressed through ServerConfig.Redis, with outages.
+
+type verifC04RpcOp struct {
+	Op     string   `json:"op"` // set | del | down | up | call
+	App    string   `json:"app"`
+	Token  string   `json:"token"`
+	Mode   string   `json:"mode"` // unary | stream
+	NoMd   bool     `json:"nomd"`
+	Apps   []string `json:"apps"`
+	Tokens []string `json:"tokens"`
+}
+
+type verifC04RpcCase struct {
+	Auth   bool            `json:"auth"`
+	Strict bool            `json:"strict"`
+	Ops    []verifC04RpcOp `json:"ops"`
+}
+
+func TestVerifDriverC04(t *testing.T) {
+	verifdrv.Run(t, func(raw json.RawMessage) any {
+		var c verifC04RpcCase
+		if err := json.Unmarshal(raw, &c); err != nil {
+			return map[string]any{"error": err.Error()}
+		}
+		mr, err := miniredis.Run()
+		if err != nil {
+			return map[string]any{"error": err.Error()}
+		}
+		up := true
+		defer func() {
+			if up {
+				mr.Close()
+			}
+		}()
+		l, err := net.Listen("tcp", "127.0.0.1:0")
+		if err != nil {
+			return map[string]any{"error": err.Error()}
+		}
+		addr := l.Addr().String()
+		l.Close()
+		conf := ServerConfig{ListenOn: addr, Auth: c.Auth, StrictControl: c.Strict, Timeout: 2000, Health: true}
+		conf.Name = "verif-c04"
+		conf.Log.Mode = "console"
+		if c.Auth {
+			conf.Redis = redis.KeyConfig{Config: redis.Config{Host: mr.Addr(), Type: redis.NodeType}, Key: "apps"}
+		}
+		var gs *grpc.Server
+		srv, err := NewServer(conf, func(s *grpc.Server) {
+			gs = s
+			mock.RegisterDepositServiceServer(s, &mock.DepositServer{})
+		})
+		logx.Disable()
+		if err != nil {
+			return map[string]any{"error": "NewServer: " + err.Error()}
+		}
+		go func() {
+			defer func() { recover() }()
+			srv.Start()
+		}()
+		var conn *grpc.ClientConn
+		for i := 0; i < 200; i++ {
+			ctx, cancel := context.WithTimeout(context.Background(), 100*time.Millisecond)
+			conn, err = grpc.DialContext(ctx, addr, grpc.WithTransportCredentials(insecure.NewCredentials()), grpc.WithBlock())
+			cancel()
+			if err == nil {
+				break
+			}
+		}
+		if err != nil {
+			return map[string]any{"error": "dial: " + err.Error()}
+		}
+		defer func() {
+			conn.Close()
+			if gs != nil {
+				gs.Stop()
+			}
+		}()
+		dep := mock.NewDepositServiceClient(conn)
+		hc := grpc_health_v1.NewHealthClient(conn)
+		type row struct {
+			Code int `json:"code"`
+		}
+		rows := []row{}
+		for _, op := range c.Ops {
+			switch op.Op {
+			case "set":
+				mr.HSet("apps", op.App, op.Token)
+			case "del":
+				mr.HDel("apps", op.App)
+			case "down":
+				if up {
+					mr.Close()
+					up = false
+				}
+			case "up":
+				if !up {
+					if err := mr.Restart(); err != nil {
+						return map[string]any{"error": "restart: " + err.Error()}
+					}
+					up = true
+				}
+			case "call":
+				ctx, cancel := context.WithTimeout(context.Background(), 5*time.Second)
+				if !op.NoMd {
+					md := metadata.MD{}
+					if op.Apps != nil {
+						md["app"] = op.Apps
+					}
+					if op.Tokens != nil {
+						md["token"] = op.Tokens
+					}
+					ctx = metadata.NewOutgoingContext(ctx, md)
+				}
+				var err error
+				if op.Mode == "stream" {
+					var st grpc_health_v1.Health_WatchClient
+					if st, err = hc.Watch(ctx, &grpc_health_v1.HealthCheckRequest{}); err == nil {
+						if _, err = st.Recv(); err == io.EOF {
+							err = nil
+						}
+					}
+				} else {
+					_, err = dep.Deposit(ctx, &mock.DepositRequest{Amount: 0})
+				}
+				cancel()
+				rows = append(rows, row{Code: int(status.Code(err))})
+			}
+		}
+		return map[string]any{"rows": rows}
+	})
+}
